@@ -94,6 +94,11 @@ PROPS["C12"] = dict(level="exploration", race=True, tiers={
     "thorough": [dict(variant="", runs=40000, budget_s=3300)],
 })
 
+PROPS["C13"] = dict(level="exploration", race=False, tiers={
+    "quick": [dict(variant="", runs=500, budget_s=80)],
+    "thorough": [dict(variant="", runs=50000, budget_s=3300)],
+})
+
 RULES = {}
 ASSUME = {}
 
